@@ -381,6 +381,54 @@ fn zone_classes(z: &Zone, a: &Analysis, ctx: &mut Ctx) -> bool {
     if z.apex.is_empty() {
         ctx.class("zone:root-apex");
     }
+    if a.soa_at_cut {
+        ctx.class("zone:soa-at-delegation-point");
+    }
+    if a.soa_at_plain {
+        ctx.class("zone:soa-at-ordinary-non-apex-name");
+    }
+    if a.soa_below_cut {
+        ctx.class("zone:soa-below-cut");
+    }
+    if a.soa_out_of_zone {
+        ctx.class("zone:soa-out-of-zone");
+    }
+    if a.apex_only_type_at_plain {
+        ctx.class("zone:dnskey-or-nsec3param-at-ordinary-non-apex-name");
+    }
+    if a.owners.values().any(|o| o.is_cut && (o.types.contains(&DNSKEY) || o.types.contains(&NSEC3PARAM))) {
+        ctx.class("zone:dnskey-or-nsec3param-at-delegation-point");
+    }
+    if !a.ttl_judged() {
+        ctx.class("zone:ttl-not-judged(non-apex-soa-in-authoritative-data)");
+    }
+    if a.unaligned_before > 0 {
+        ctx.class("zone:out-of-zone-before-with-unaligned-apex-suffix");
+    }
+    if a.unaligned_after > 0 {
+        ctx.class("zone:out-of-zone-after-with-unaligned-apex-suffix");
+    }
+    if a.first_trailing_is_unaligned {
+        ctx.class("zone:first-trailing-owner-has-unaligned-apex-suffix");
+    }
+    if z.apex.first().map(|l| matches!(l.len(), 45 | 48..=57)).unwrap_or(false) {
+        ctx.class("zone:apex-label-length-octet-is-hostname-char");
+        if a.first_trailing_is_unaligned {
+            ctx.class("zone:hostname-like-trailing-look-alike");
+        }
+    }
+    if a.lookalike_of_cut {
+        ctx.class("zone:authoritative-name-with-unaligned-cut-suffix");
+    }
+    if a.lookalike_follows_cut {
+        ctx.class("zone:unaligned-cut-suffix-name-follows-the-cut");
+    }
+    if a.lookalike_of_owner {
+        ctx.class("zone:authoritative-name-with-unaligned-owner-suffix");
+    }
+    if a.lookalike_ent {
+        ctx.class("zone:ent-with-unaligned-owner-suffix");
+    }
     let mut windows = BTreeSet::new();
     for o in a.owners.values().filter(|o| o.authoritative) {
         let w: BTreeSet<u8> = o.visible_types().iter().map(|t| (t >> 8) as u8).collect();
@@ -581,7 +629,7 @@ fn run_nsec(data: &[u8], ctx: &mut Ctx) -> CaseResult {
         vensure!(acc == types, "nsec:bitmap-iter-differs-from-wire", "{:?} vs {:?}", acc, types);
         vensure!(name_eq(&from_name(r.data().next_name()), &next), "nsec:next-accessor-differs-from-wire", "{}", show(&owner));
         vensure!(r.class().to_int() == z.class, "nsec:class", "NSEC at {} has class {} zone {}", show(&owner), r.class(), z.class);
-        vensure!(r.ttl().as_secs() == expected_ttl(&z), "nsec:ttl", "NSEC at {} has TTL {} want min({}, {})", show(&owner), r.ttl().as_secs(), z.soa_ttl, z.soa_min);
+        vensure!(!a.ttl_judged() || r.ttl().as_secs() == expected_ttl(&z), "nsec:ttl", "NSEC at {} has TTL {} want min({}, {})", show(&owner), r.ttl().as_secs(), z.soa_ttl, z.soa_min);
         chain.push(NsecRec { owner, next, types });
     }
     let exp = a.expected_nsec(dnskey);
@@ -800,7 +848,7 @@ fn run_nsec3(data: &[u8], ctx: &mut Ctx) -> CaseResult {
         );
         vensure!(p.next.len() == 20, "nsec3:next-hash-length", "{}", p.next.len());
         vensure!(r.class().to_int() == 1, "nsec3:class", "class {}", r.class());
-        vensure!(r.ttl().as_secs() == expected_ttl(&z), "nsec3:ttl", "NSEC3 TTL {} want min({}, {})", r.ttl().as_secs(), z.soa_ttl, z.soa_min);
+        vensure!(!a.ttl_judged() || r.ttl().as_secs() == expected_ttl(&z), "nsec3:ttl", "NSEC3 TTL {} want min({}, {})", r.ttl().as_secs(), z.soa_ttl, z.soa_min);
         chain.push(Nsec3Rec { hash, next: p.next, flags: p.flags, types: p.types });
     }
     // expected chain in hash order
@@ -881,7 +929,7 @@ fn run_nsec3(data: &[u8], ctx: &mut Ctx) -> CaseResult {
             1 => z.soa_min,
             _ => c.fixed_ttl,
         };
-        vensure!(r.ttl().as_secs() == want, "nsec3param:ttl-mode", "mode {} ttl {} want {want}", c.ttl_mode, r.ttl().as_secs());
+        vensure!((!a.ttl_judged() && c.ttl_mode < 2) || r.ttl().as_secs() == want, "nsec3param:ttl-mode", "mode {} ttl {} want {want}", c.ttl_mode, r.ttl().as_secs());
     }
     // denial probes
     let mut pcl = vec![];
@@ -1068,6 +1116,18 @@ fn health(c: &BTreeMap<String, u64>, _thorough: bool) -> Result<(), String> {
         "zone:out-of-zone-before",
         "zone:out-of-zone-after",
         "zone:root-apex",
+        "zone:soa-at-delegation-point",
+        "zone:soa-at-ordinary-non-apex-name",
+        "zone:soa-below-cut",
+        "zone:dnskey-or-nsec3param-at-ordinary-non-apex-name",
+        "zone:dnskey-or-nsec3param-at-delegation-point",
+        "zone:out-of-zone-before-with-unaligned-apex-suffix",
+        "zone:out-of-zone-after-with-unaligned-apex-suffix",
+        "zone:first-trailing-owner-has-unaligned-apex-suffix",
+        "zone:hostname-like-trailing-look-alike",
+        "zone:authoritative-name-with-unaligned-cut-suffix",
+        "zone:unaligned-cut-suffix-name-follows-the-cut",
+        "zone:ent-with-unaligned-owner-suffix",
         "zone:three-or-more-windows-at-one-name",
         "zone:type-in-window-255",
         "zone:type-1234",
@@ -1106,9 +1166,9 @@ fn health(c: &BTreeMap<String, u64>, _thorough: bool) -> Result<(), String> {
 pub fn prop() -> Option<Prop> {
     Some(Prop {
         id: "C13",
-        rule: "a case is a generated zone (name tree under an apex with delegations, glue, occluded data, ENTs, wildcards, case variants, out-of-zone records, types in several bitmap windows) plus a generator configuration and 5..24 absent/present (name,type) probes; non-trivial = the zone has at least one non-authoritative name below a cut, or at least one empty non-terminal, or owner names that differ only in case (distinct by zone+configuration); bitmap cases are non-trivial with >= 2 windows, hash cases always",
+        rule: "a case is a generated zone (name tree under an apex with delegations, glue, occluded data, ENTs, wildcards, case variants, out-of-zone records incl. names whose wire form ends in the apex's wire form inside a label, SOA/DNSKEY/NSEC3PARAM at delegation points, ordinary names and below cuts, types in several bitmap windows) plus a generator configuration and 5..24 absent/present (name,type) probes; non-trivial = the zone has at least one non-authoritative name below a cut, or at least one empty non-terminal, or owner names that differ only in case (distinct by zone+configuration); bitmap cases are non-trivial with >= 2 windows, hash cases always",
         assumptions: &[
-            "input domain: records sorted through SortedRecords (the documented precondition), one class, exactly one SOA and it is at the apex (other SOA records only below a cut), uniform TTL per RRset (Rrset::new panics otherwise by design), unsigned zone (no RRSIG/NSEC/NSEC3 records in the input), apex name <= 222 octets so that the hashed owner name fits (longer apexes make generate_nsec3s panic in append_origin; not generated)",
+            "input domain: records sorted through SortedRecords (the documented precondition), one class, exactly one SOA at the apex; at any other owner at most one SOA record (child apex data merged in at a delegation point, a stray SOA at an ordinary name, below a cut, outside the zone) — chain structure and bitmaps are judged for such zones, TTLs only when no SOA other than the apex's sits in authoritative data (the generators take TTLs from every SOA they walk over; the statement does not cover TTLs), uniform TTL per RRset (Rrset::new panics otherwise by design), unsigned zone (no RRSIG/NSEC/NSEC3 records in the input), apex name <= 222 octets so that the hashed owner name fits (longer apexes make generate_nsec3s panic in append_origin; not generated)",
             "NSEC3 zones are class IN (generate_nsec3s hard-codes Class::IN for its output)",
             "reference: RFC 4034 §6.1 order, §4.1.2 bitmap decoder, RFC 5155 §5 hash on ring::digest SHA-1, RFC 4648 base32hex — all in props/c13/refs.rs, checked against the RFC examples in unit tests",
             "with opt-out + exclusion the expected chain omits unsigned delegations and ENTs leading only to them (RFC 5155 §7.1)",
